@@ -34,7 +34,8 @@ string-valued constructor argument of every control: text, tooltip, link,
 target, id, css_classes, styles keys and values, tab / sub-progress names;
 for the arguments of a Label with its structural position: `@group-name`,
 `@group-value`, `@tab-label`, a Tooltip object given to a Label `@label`),
-Html.escape@text / Html.escape@attr; `combination:<subject>` when no single
+`option:<name>` (the string-valued render options css_classes, title,
+key_color, summary_color), Html.escape@text / Html.escape@attr; `combination:<subject>` when no single
 kind reproduces it.  For a guilty kind the clause does not depend on the random
 payload that happened to sit there: it is decided by two fixed probe payloads
 (`<zq17 zq17=1>`, inert inside a quoted attribute value, and `" zq17="1`, inert
@@ -146,9 +147,8 @@ REQUIRED_COUNTERS = ['strict_parses', 'twin_comparisons', 'canary_checks',
 ASSUMPTIONS = [
     'html.parser (CPython 3.12) tokenizes like a browser for the constructs the library emits; '
     'the strict rules (explicit end tags, attribute grammar, no raw <) are stronger than HTML5 parsing',
-    'pg.Html objects, inner_html strings, titles, colors, CSS selectors (Tooltip.for_element), CSS text '
-    '(add_style) and the css_classes / extra_flags *render options* of the tree view are markup/'
-    'configuration by contract and are only given benign values; ids, css classes, styles, targets and '
+    'pg.Html objects, inner_html strings, CSS selectors (Tooltip.for_element) and CSS text (add_style) '
+    'are markup/code by contract and are only given benign values; ids, css classes, styles, targets and '
     'names given to the constructor of a control are data in single renderings and benign in histories '
     '(update scripts address elements by id and class)',
     'an exception raised by user code during a rendering (option callable, extension method, repr) may '
@@ -729,6 +729,19 @@ def gen_opts(rng, S, desc, gen):
   maybe('debug', [True, False])
   maybe('css_classes', [None, ['list', 'my-class'], ['list', 'c1', 'c2']])
   maybe('title', [None, 'Title'])
+  # The string-valued options are payload positions as well (half of the time).
+  if o.get('css_classes') and rng.random() < 0.5:
+    o['css_classes'] = ['list'] + [
+        ['slot', S.new(rng, 'option:css_classes')] if rng.random() < 0.7 else x
+        for x in o['css_classes'][1:]]
+  if o.get('title') and rng.random() < 0.5:
+    o['title'] = ['slot', S.new(rng, 'option:title')]
+  for k in ('key_color', 'summary_color'):
+    if (isinstance(o.get(k), list) and o[k][0] == 'tuple'
+        and rng.random() < 0.5):
+      o[k] = ['tuple'] + [
+          x if x is None else ['slot', S.new(rng, 'option:' + k)]
+          for x in o[k][1:]]
   if rng.random() < p:
     o['extra_flags'] = {k: rng.random() < 0.5 for k in
                         rng.sample(['hide_frozen', 'hide_default_values',
@@ -799,9 +812,13 @@ def build_opts(o, S, mode):
     elif isinstance(v, list) and v and v[0] == 'failfn':
       kw[k] = failing_fn(FNS[v[1]], v[2])
     elif isinstance(v, list) and v and v[0] == 'tuple':
-      kw[k] = (v[1], v[2])
+      kw[k] = tuple(key_text(x, S, mode) if isinstance(x, list) else x
+                    for x in v[1:])
     elif isinstance(v, list) and v and v[0] == 'list':
-      kw[k] = list(v[1:])
+      kw[k] = [key_text(x, S, mode) if isinstance(x, list) else x
+               for x in v[1:]]
+    elif k == 'title':
+      kw[k] = key_text(v, S, mode) if isinstance(v, list) else v
     elif k in ('include_keys', 'exclude_keys'):
       kw[k] = [_key_value(r, S, mode) for r in v[1:]]
     elif k == 'uncollapse':
